@@ -1,4 +1,4 @@
-HOOK_COMMITS = ['da136f3', '8dfdeaa', '7714bae']  # QLIBC_VERIF_MAX_LINESIZE (qaconf.c), QLIBC_VERIF_HASHARR_NAMESIZE/DATASIZE (qhasharr.h), QLIBC_VERIF_MAX_MUTEX_LOCK_WAIT (qinternal.h)
+HOOK_COMMITS = ['da136f3', '8dfdeaa', '7714bae', 'b67a735']  # QLIBC_VERIF_MAX_LINESIZE (qaconf.c), QLIBC_VERIF_HASHARR_NAMESIZE/DATASIZE (qhasharr.h), QLIBC_VERIF_MAX_MUTEX_LOCK_WAIT, QLIBC_VERIF_VSPRINTF_INITSIZE (qinternal.h)
 NA = lambda i, r: {'property_id': i, 'reason': r}
 _T = 'CBMC 6.11 bounded symbolic execution of the real translation units (goto-cc build from /repo on every run); '
 _NOTE = ('Trusted base: CBMC 6.11 C semantics, its SAT/SMT back ends and its models of malloc/free/memcpy/strlen etc.; the harness stubs listed in the evidence file; '
